@@ -68,6 +68,11 @@ def AuthSt.wf {C D : Type} (H : C → Nat → D) (cookie : C) : AuthSt D → Pro
   | .server s => s.wf H cookie
   | .client c => c.wf H cookie
 
+/-- The authentication messages the current state goes on with (right kind, right digest). -/
+def AuthSt.accepts {D : Type} [DecidableEq D] : AuthSt D → Msg D → Bool
+  | .server s, m => s.accepts m
+  | .client c, m => c.accepts m
+
 inductive Ready where
   | open | syncSent | syncReceived | ready
   deriving DecidableEq, Repr
